@@ -297,4 +297,100 @@ example (g : RustTy → RotoTy → Res) (f : RustFn) :
     getFunction g (pipeline.table decls0 []) (id% "t") f = .doesNotExist := by
   apply not_a_function_refused; decide
 
+/-! ### Keys are unambiguous
+
+  What makes "the function `pkg.<name>`" well defined: the key of a
+  declaration determines its module, its identifier and whether it is a test. -/
+
+/-- an identifier of the language contains neither `.` (46) nor `#` (35) -/
+def IdentOK (i : Ident) : Prop := 46 ∉ i ∧ 35 ∉ i
+
+/-- a module path with its separator: empty, or ending in `.` -/
+def ModPathOK (m : Ident) : Prop := m = [] ∨ m.getLast? = some 46
+
+/-- the part of a key after its last `.` -/
+def lastSeg (k : Ident) : Ident := (k.reverse.takeWhile (· != 46)).reverse
+
+theorem lastSeg_append (m s : Ident) (hm : ModPathOK m) (hs : 46 ∉ s) : lastSeg (m ++ s) = s := by
+  unfold lastSeg
+  rw [List.reverse_append]
+  have hall : ∀ a ∈ s.reverse, (a != 46) = true := by
+    intro a ha
+    have : a ∈ s := List.mem_reverse.1 ha
+    simp only [bne_iff_ne, ne_eq]
+    intro h; subst h; exact hs this
+  rw [List.takeWhile_append_of_pos hall]
+  have : m.reverse.takeWhile (· != 46) = [] := by
+    rcases hm with rfl | hl
+    · rfl
+    · cases hr : m.reverse with
+      | nil => rfl
+      | cons c cs =>
+        have : m.getLast? = some c := by
+          rw [← List.head?_reverse, hr]; rfl
+        rw [hl] at this
+        cases this
+        simp [List.takeWhile]
+  rw [this, List.append_nil, List.reverse_reverse]
+
+theorem test_prefix_no_dot : 46 ∉ testPrefix := by decide
+
+/-- **Keys are unambiguous.** Two declarations with the same key stand in the
+    same module, bear the same identifier, and are both tests or both not: a
+    test `t` and a function `t`, a function `f` of module `sub` and a function
+    `sub.f` (no identifier contains a `.`) never share an entry of the table. -/
+theorem key_injective (d d' : Decl)
+    (hm : ModPathOK d.modpath) (hm' : ModPathOK d'.modpath)
+    (hi : IdentOK d.ident) (hi' : IdentOK d'.ident)
+    (hk : d.key = d'.key) :
+    d.modpath = d'.modpath ∧ d.ident = d'.ident ∧ (d.kind = .test ↔ d'.kind = .test) := by
+  unfold Decl.key at hk
+  have hs : ∀ (k : DeclKind) (i : Ident), 46 ∉ i → 46 ∉ (if k = .test then testPrefix else []) ++ i := by
+    intro k i hi
+    split
+    · intro h
+      rcases List.mem_append.1 h with h | h
+      · exact test_prefix_no_dot h
+      · exact hi h
+    · simpa using hi
+  have h1 := lastSeg_append d.modpath _ hm (hs d.kind d.ident hi.1)
+  have h2 := lastSeg_append d'.modpath _ hm' (hs d'.kind d'.ident hi'.1)
+  rw [hk, h2] at h1
+  -- the suffixes agree, hence the module paths
+  have hmod : d.modpath = d'.modpath := by
+    rw [← h1] at hk
+    exact List.append_cancel_right hk
+  refine ⟨hmod, ?_⟩
+  by_cases ht : d.kind = .test <;> by_cases ht' : d'.kind = .test <;>
+    simp only [ht, ht', if_true, if_false, List.nil_append] at h1
+  · exact ⟨(List.append_cancel_left h1).symm, by simp [ht, ht']⟩
+  · -- `ident = test# ++ ident'` would put a `#` into an identifier
+    exfalso
+    have : (35 : Nat) ∈ d'.ident := by rw [h1]; simp [testPrefix]
+    exact hi'.2 this
+  · exfalso
+    have : (35 : Nat) ∈ d.ident := by rw [← h1]; simp [testPrefix]
+    exact hi.2 this
+  · exact ⟨h1.symm, by simp [ht, ht']⟩
+
+example : IdentOK (id% "below_limit") := by constructor <;> decide
+example : ModPathOK (id% "pkg.sub.") := by right; decide
+/-- a test `t` and a function `t` of one module; `f` of `sub` and `sub.f` (were it an identifier) of the root -/
+example : (⟨.test, id% "pkg.", id% "t", ⟨[], .unit⟩⟩ : Decl).key ≠ (⟨.function, id% "pkg.", id% "t", ⟨[], .unit⟩⟩ : Decl).key := by decide
+example : (⟨.function, id% "pkg.sub.", id% "f", ⟨[], .unit⟩⟩ : Decl).key = (⟨.function, id% "pkg.", id% "sub.f", ⟨[], .unit⟩⟩ : Decl).key := by decide
+
+
+/-- … so in a package whose declarations are pairwise distinct as (module,
+    identifier, test or not) — what the type checker enforces per scope — no two
+    function-like declarations share a key, and the side condition of
+    `retrieval_iff_declared` holds with the signature of *the* declaration. -/
+theorem unique_signature_of_distinct_names (decls : List Decl) (d : Decl) (hd : d ∈ decls)
+    (hok : ∀ x ∈ decls, ModPathOK x.modpath ∧ IdentOK x.ident)
+    (hdist : ∀ x ∈ decls, ∀ y ∈ decls, x.modpath = y.modpath → x.ident = y.ident →
+      (x.kind = .test ↔ y.kind = .test) → x.kind.functionLike = true → y.kind.functionLike = true → x.sig = y.sig) :
+    ∀ x ∈ decls, x.kind.functionLike = true → d.kind.functionLike = true → x.key = d.key → x.sig = d.sig := by
+  intro x hx hfx hfd hk
+  obtain ⟨hm, hi, ht⟩ := key_injective x d (hok x hx).1 (hok d hd).1 (hok x hx).2 (hok d hd).2 hk
+  exact hdist x hx d hd hm hi ht hfx hfd
+
 end RotoV.C04Tab
